@@ -18,6 +18,7 @@ import (
 // Line break are inserted if a line is longer than 1000 characters (including CRLF).
 func StringToBody(str, encoding string) ([]byte, error) {
 	in := bufio.NewScanner(bytes.NewBufferString(str))
+	in.Buffer(nil, len(str)+1) // A single line can be as long as the whole body
 	out := new(bytes.Buffer)
 
 	var err error
